@@ -16,13 +16,14 @@ REG = {
     },
     "C02": {
         "modules": ["VProofs.Props.C02"],
-        "theorems": thms("C02", ["C02_order_indep", "C02_mutex_generic_pandas", "dtype_partition", "contains_dtypePred"]),
+        "theorems": thms("C02", ["C02_order_indep", "C02_mutex_generic_pandas", "dtype_partition", "contains_dtypePred",
+                                 "C02_mutex_object_pandas", "C02_mutex_string_pandas", "C02_witness_F10"]),
         "runners": ["pandas"],
         "relevant": ["contains", "guard", "infer-path", "infer-outcome", "detect-path", "relation-missing"],
     },
     "C03": {
         "modules": ["VProofs.Props.C03"],
-        "theorems": thms("C03", ["C03_infer_sound", "C03_lands_step"]),
+        "theorems": thms("C03", ["C03_infer_sound", "C03_lands_step", "C03_lands_pandas"]),
         "runners": ["pandas", "numpy", "list"],
     },
     "C04": {
